@@ -50,7 +50,7 @@ def _perturb(rnd, tr: Dict[str, Any], mode: str) -> Dict[str, Any]:
 
 def gen_case(rnd, tier: str, i: Any) -> Dict[str, Any]:
     n_ranks = rnd.choice([1, 2, 3, 3])
-    first_step = rnd.randint(1, 500)
+    first_step = gen_sim.pick_first_step(rnd)
     n_steps = rnd.choice([1, 2, 3])
     mode = rnd.choice(["identical", "perturbed", "perturbed", "vocab"])
     control, test = {}, {}
